@@ -127,6 +127,50 @@ def h_stmt(ctx, nids, end, sym_types, sym_date):
         ctx.check("each request has its account's type, id, the given dates and include flags", ctx.all(conds))
 
 
+def h_stmt_wire(ctx, end):
+    """the same command down to the bytes: the request the real client serializes, read back by the library's reader, asks for the
+    configured accounts - including an account number longer than the 22 characters ACCTID nags about"""
+    from ofxtools.Client import OFXClient
+    from harness import c06
+    seen = []
+
+    def fake_download(self, ofx, **kw):
+        seen.append(self.serialize(ofx))
+        return io.BytesIO(b"")
+    ctx.stub(OFXClient, "download", fake_download)
+    long_id = "1234567890123456789012" + ctx.str("tail", 1, IDCH)          # 23 characters
+    short_id = ctx.str("short", 1, IDCH)
+    which = ctx.choice("long_is", ["checking", "creditcard"] + ([] if end else ["investment"]))
+    extra = dict(bankid="B1", brokerid="BR")
+    for t in ["checking", "creditcard"] + ([] if end else ["investment"]):
+        extra[t] = [long_id if t == which else short_id]
+    args = base_args(ctx, extra)
+    with_warnings_ignored(ofxget.request_stmtend if end else ofxget.request_stmt, args)
+    ctx.check("the request is composed once", len(seen) == 1)
+    if len(seen) != 1:
+        return
+    hdr, ofx = c06.parse_back(seen[0])
+    got = {}
+    for w in (ofx.bankmsgsrqv1 or []):
+        got["checking"] = (w.stmtendrq if end else w.stmtrq).bankacctfrom.acctid
+    for w in (ofx.creditcardmsgsrqv1 or []):
+        got["creditcard"] = (w.ccstmtendrq if end else w.ccstmtrq).ccacctfrom.acctid
+    if not end:
+        for w in (ofx.invstmtmsgsrqv1 or []):
+            got["investment"] = w.invstmtrq.invacctfrom.acctid
+    for t in extra:
+        if t in ("bankid", "brokerid"):
+            continue
+        ctx.check("each request on the wire carries its account's number in full", t in got and got[t] == extra[t][0])
+
+
+def with_warnings_ignored(f, *a):
+    import warnings
+    with warnings.catch_warnings():
+        warnings.simplefilter("ignore")
+        return f(*a)
+
+
 def h_stmt_model(ctx, end, nbank):
     """same command, but with the real client composing the request: OFXClient.download is stubbed and receives the OFX
     model, which must hold one transaction wrapper per configured account (the same number under two account types are
@@ -298,7 +342,7 @@ def h_cli(ctx, end, accts=None):
         ctx.check("each request has its account's type, id, the given dates and include flags", ctx.all(conds))
 
 
-HARNESSES = dict(stmt=h_stmt, stmt_model=h_stmt_model, all=h_all, cli=h_cli)
+HARNESSES = dict(stmt_wire=h_stmt_wire, stmt=h_stmt, stmt_model=h_stmt_model, all=h_all, cli=h_cli)
 
 META = dict(
     bounds=dict(configured="0..1 (quick) / 0..2 (thorough) symbolic account ids per account type (6 types), symbolic presence and digits of the three dates, symbolic include flags",
@@ -332,6 +376,7 @@ def instances(tier, seed):
                 mk(f"stmt[end={end},{'+'.join(sorted(st))},{sd}]", "stmt", dict(nids=1, end=end, sym_types=st, sym_date=sd))
         for n in ((1, 2) if not full else (1, 2, 3)):
             mk(f"all[{n},end={end}]", "all", dict(n=n, end=end))
+        mk(f"stmt_wire[end={end}]", "stmt_wire", dict(end=end))
         mk(f"cli[end={end}]", "cli", dict(end=end, accts=None if full else ["checking", "creditline", "creditcard", "investment"]))
         mk(f"stmt_model[end={end}]", "stmt_model", dict(end=end, nbank=2 if not full else 3))
     return out
